@@ -31,6 +31,9 @@ func checkC10(c *Ctx) {
 	r.Rule("C10.b", "OpNotEqual = not(OpEqual(p0, p1))", 1)
 	r.Rule("C10.c", "`=` and `<>` are routed to frt.OpEqual / frt.OpNotEqual and both operands get the same type", 3)
 
+	// (e) the module graph
+	r.Rule("C10.e", "go-cmp is the module and version the assumption names: required at v0.6.0, and no go.mod replaces an external module", 12)
+	checkModuleGraph(c, "C10.e")
 	// (d) go-cmp calls a type's own Equal method instead of comparing structurally: no type a Folang value can have defines one
 	r.Rule("C10.d", "no Equal method exists on any type of the run-time libraries, and the compiler emits only the marker and String methods on generated types (go-cmp would use an Equal method in place of structural comparison)", 8)
 	for _, dir := range []string{"pkg/frt", "pkg/slice", "pkg/dict", "pkg/strings", "pkg/buf", "pkg/sys"} {
